@@ -153,6 +153,13 @@ def typed_requests_mir(ctx):
             if rp is None:
                 rp = Replay()
             real = rp.ask("typed_request %s %d" % (meth, w))
+            if what.startswith("panics") and "panic" not in real:
+                # a panic edge that needs the underlying word request to FAIL: the same request on an empty buffer
+                real_e = rp.ask("typed_request %s %d empty" % (meth, w))
+                if "panic" in real_e:
+                    ctx.ob(tag, False, "%s; native (empty buffer): %s" % (what, real_e))
+                    ctx.violation("typed-request/%s/panic" % meth, "Decoder::%s on an empty buffer %s: %s" % (meth, what, real_e.get("panic")), {"cmd": "typed_request %s %d empty" % (meth, w), "real": real_e})
+                    break
             if kind in S.maskall:
                 is_decl = (w & ~S.maskall[kind] & 0xffffffff) == 0
             else:
